@@ -17,7 +17,7 @@ NPROC = int(os.environ.get('VERIF_JOBS', '16'))
 
 HARNESS_ERROR = 2
 # global budget (seconds of unit starts) of a thorough run; units themselves have their own caps
-THOROUGH_S = int(os.environ.get('VERIF_THOROUGH_BUDGET', '1500'))
+THOROUGH_S = int(os.environ.get('VERIF_THOROUGH_BUDGET', '1200'))
 
 
 def seed():
